@@ -107,7 +107,11 @@ typedef char *ll2c_ptr;
 #endif
 
 /* relational abstraction of float operations (only emitted when a contract asks for it) */
-#ifdef LL2C_CBMC
+#if defined(LL2C_CBMC) && defined(LL2C_NO_UF)
+/* exact-arithmetic refinement run: the clause-side spellings are the plain IEEE / integer operations */
+#define LL2C_UF2(name, op, a, b) ((a)op(b))
+#define LL2C_UFCALL(name) name
+#elif defined(LL2C_CBMC)
 #define LL2C_UF2(name, op, a, b) ll2c_uf_##name((a), (b))
 #define LL2C_UFCALL(name) __CPROVER_uninterpreted_uf_##name
 float __CPROVER_uninterpreted_fadd_f32(float, float);
@@ -190,8 +194,11 @@ static inline u64 ll2c_ufi_mul(u64 n, u64 a, u64 b) { return a <= b ? __CPROVER_
 #define ll2c_ufi_urem __CPROVER_uninterpreted_ll2c_urem
 #define ll2c_ufi_sdiv __CPROVER_uninterpreted_ll2c_sdiv
 #define ll2c_ufi_srem __CPROVER_uninterpreted_ll2c_srem
+#ifndef LL2C_NO_UF
 #define LL2C_UFI(op, n, a, b) ll2c_ufi_##op((u64)(n), (a), (b))
-#else
+#endif
+#endif
+#if !defined(LL2C_CBMC) || defined(LL2C_NO_UF)
 static inline u64 ll2c_nat_mul(unsigned n, u64 a, u64 b) { return a * b; }
 static inline u64 ll2c_nat_udiv(unsigned n, u64 a, u64 b) { return b ? a / b : 0; }
 static inline u64 ll2c_nat_urem(unsigned n, u64 a, u64 b) { return b ? a % b : 0; }
